@@ -176,3 +176,225 @@ pub fn screen_generic(ctx: &mut Ctx, t: &'static str, n: u32, ops: &[&'static st
         }
     }
 }
+
+// ---------------------------------------------------------------------------------------------------------------
+// unary sweeps: a seeded coset of ALL 2^32 source patterns (P32E2 patterns, f32 patterns, 32-bit integers)
+// ---------------------------------------------------------------------------------------------------------------
+fn val32(p: u32) -> Option<f64> {
+    if p == 0 {
+        Some(0.0)
+    } else if p == 0x8000_0000 {
+        None
+    } else {
+        Some(gen::to_f64_exact(32, 2, p as u64))
+    }
+}
+
+type Imp = fn(P32E2) -> u64;
+type Ref = fn(f64) -> u64;
+fn p32b(v: f64) -> u64 { P32E2::from_f64(v).to_bits() as u64 }
+
+/// (op, spelling, implementation, f64 route)
+const UNARY32: [(&str, &str, Imp, Ref); 17] = [
+    ("to_f32", "m", |p| p.to_f32().to_bits() as u64, |v| (v as f32).to_bits() as u64),
+    ("to_f64", "m", |p| p.to_f64().to_bits(), |v| v.to_bits()),
+    ("to_i32", "m", |p| p.to_i32() as u32 as u64, |v| (v.round_ties_even() as i32) as u32 as u64),
+    ("to_u32", "m", |p| p.to_u32() as u64, |v| (v.round_ties_even() as u32) as u64),
+    ("to_i64", "m", |p| p.to_i64() as u64, |v| (v.round_ties_even() as i64) as u64),
+    ("to_u64", "m", |p| p.to_u64(), |v| v.round_ties_even() as u64),
+    ("round", "m", |p| p.round().to_bits() as u64, |v| p32b(v.round_ties_even())),
+    ("floor", "m", |p| p.floor().to_bits() as u64, |v| p32b(v.floor())),
+    ("ceil", "m", |p| p.ceil().to_bits() as u64, |v| p32b(v.ceil())),
+    ("trunc", "m", |p| p.trunc().to_bits() as u64, |v| p32b(v.trunc())),
+    ("fract", "m", |p| p.fract().to_bits() as u64, |v| p32b(v - v.trunc())),
+    ("sqrt", "m", |p| p.sqrt().to_bits() as u64, |v| p32b(v.sqrt())),
+    ("to_p16", "f", |p| P16E1::from(p).to_bits() as u64, |v| P16E1::from_f64(v).to_bits() as u64),
+    ("to_p8", "f", |p| softposit::P8E0::from(p).to_bits() as u64, |v| softposit::P8E0::from_f64(v).to_bits() as u64),
+    ("recip", "m", |p| num_traits::Float::recip(p).to_bits() as u64, |v| p32b(1.0 / v)),
+    ("abs", "m", |p| p.abs().to_bits() as u64, |v| p32b(v.abs())),
+    ("neg", "m", |p| (-p).to_bits() as u64, |v| p32b(-v)),
+];
+
+/// every `2^(32-log2n)`-th P32E2 pattern (offset by the seed) through the listed unary operations
+pub fn screen_unary32(ctx: &mut Ctx, ty: &Ty, ops: &[&'static str], log2n: u32) {
+    let stride = 1u64 << (32 - log2n);
+    let off = ctx.seed.wrapping_mul(0x9E37_79B9_7F4A_7C15) % stride;
+    for &(op, sp, imp, rf) in UNARY32.iter().filter(|e| ops.contains(&e.0)) {
+        let mut logged = 0usize;
+        let mut p = off;
+        while p < (1u64 << 32) {
+            let x = [p];
+            if let Some(v) = val32(p as u32) {
+                set_current(op, ty.name, sp, 32, &x);
+                let got = match guarded(|| Some(vec![Val::U(imp(P32E2::from_bits(p as u32)))])) {
+                    Some(Outcome::Ok(r)) => r[0].u(),
+                    _ => u64::MAX,
+                };
+                ctx.sink.screened += 1;
+                let sqrt_neg = op == "sqrt" && v < 0.0;
+                if !sqrt_neg && got != rf(v) && logged < MAX_LOGGED {
+                    logged += 1;
+                    *ctx.sink.per_op.entry(format!("screen-selected:{}.{}", ty.name, op)).or_insert(0) += 1;
+                    ctx.call(ty, op, sp, &x);
+                }
+            }
+            p += stride;
+        }
+    }
+}
+
+/// 32-bit sources into each fixed posit type: f32 patterns (route: the same value widened to f64 through
+/// `from_f64`) and i32 / u32 values (route: the exactly converted f64 through `from_f64`)
+pub fn screen_from32(ctx: &mut Ctx, tys: &[&'static Ty], ops: &[&'static str], log2n: u32) {
+    let stride = 1u64 << (32 - log2n);
+    let off = ctx.seed.wrapping_mul(0xD1B5_4A32_D192_ED03) % stride;
+    for ty in tys {
+        for &op in ops {
+            let mut logged = 0usize;
+            let mut w = off;
+            while w < (1u64 << 32) {
+                let wide: f64 = match op {
+                    "from_f32" => f32::from_bits(w as u32) as f64,
+                    "from_i32" => (w as u32 as i32) as f64,
+                    _ => (w as u32) as f64,
+                };
+                let x = [w];
+                set_current(op, ty.name, "m", ty.n, &x);
+                let got = match guarded(|| (ty.exec)(op, "m", &x)) {
+                    Some(Outcome::Ok(v)) => v[0].u(),
+                    Some(Outcome::Panic { .. }) => u64::MAX,
+                    None => break,
+                };
+                let via = match guarded(|| (ty.exec)("from_f64", "m", &[wide.to_bits()])) {
+                    Some(Outcome::Ok(v)) => v[0].u(),
+                    _ => u64::MAX - 1,
+                };
+                ctx.sink.screened += 1;
+                if got != via && logged < MAX_LOGGED {
+                    logged += 1;
+                    *ctx.sink.per_op.entry(format!("screen-selected:{}.{}", ty.name, op)).or_insert(0) += 1;
+                    ctx.call(ty, op, "m", &x);
+                }
+                w += stride;
+            }
+        }
+    }
+}
+
+/// 64-bit integer sources (route: `from_f64` of the f64 nearest the integer -- rounded twice, so only a pointer)
+pub fn screen_from64(ctx: &mut Ctx, tys: &[&'static Ty], per_op: usize) {
+    for ty in tys {
+        for op in ["from_i64", "from_u64"] {
+            let mut logged = 0usize;
+            for _ in 0..per_op {
+                // magnitude classes: every bit length equally likely, dense / sparse low bits
+                let bl = ctx.rng.gen_range(1..=64u32);
+                let mut w = ctx.rng.gen::<u64>() >> (64 - bl) | (1u64 << (bl - 1));
+                match ctx.rng.gen_range(0..4) {
+                    0 => w &= !0u64 << ctx.rng.gen_range(0..bl),
+                    1 => w |= (1u64 << ctx.rng.gen_range(0..bl)) - 1,
+                    _ => {}
+                }
+                if op == "from_i64" && ctx.rng.gen::<bool>() {
+                    w = w.wrapping_neg();
+                }
+                let wide = if op == "from_i64" { (w as i64) as f64 } else { w as f64 };
+                let x = [w];
+                set_current(op, ty.name, "m", ty.n, &x);
+                let got = match guarded(|| (ty.exec)(op, "m", &x)) {
+                    Some(Outcome::Ok(v)) => v[0].u(),
+                    Some(Outcome::Panic { .. }) => u64::MAX,
+                    None => break,
+                };
+                let via = match guarded(|| (ty.exec)("from_f64", "m", &[wide.to_bits()])) {
+                    Some(Outcome::Ok(v)) => v[0].u(),
+                    _ => u64::MAX - 1,
+                };
+                ctx.sink.screened += 1;
+                if got != via && logged < MAX_LOGGED {
+                    logged += 1;
+                    *ctx.sink.per_op.entry(format!("screen-selected:{}.{}", ty.name, op)).or_insert(0) += 1;
+                    ctx.call(ty, op, "m", &x);
+                }
+            }
+        }
+    }
+}
+
+// ---------------------------------------------------------------------------------------------------------------
+// generic-width conversions (C14): every width, both exponent sizes
+// ---------------------------------------------------------------------------------------------------------------
+fn gx(t: &str, n: u32, m: u32, op: &str, sp: &str, x: &[u64]) -> u64 {
+    set_current("screen", "x", "m", n, x);
+    match guarded(|| exec_px_m(t, n, m, op, sp, x)) {
+        Some(Outcome::Ok(v)) => v[0].u(),
+        Some(Outcome::Panic { .. }) => u64::MAX,
+        None => u64::MAX - 7,
+    }
+}
+
+pub fn screen_generic_conv(ctx: &mut Ctx, t: &'static str, n: u32, log2n: u32) {
+    let es = if t == "x1" { 1 } else { 2 };
+    let other: &'static str = if t == "x1" { "x2" } else { "x1" };
+    let st = |p: u64| (p << (32 - n)) & 0xffff_ffff;
+    let mut logged = std::collections::HashMap::<&'static str, usize>::new();
+    let mut select = |ctx: &mut Ctx, op: &'static str, sp: &'static str, m: u32, x: &[u64], differs: bool| {
+        ctx.sink.screened += 1;
+        let c = logged.entry(op).or_insert(0);
+        if differs && *c < 120 {
+            *c += 1;
+            *ctx.sink.per_op.entry(format!("screen-selected:{}.{}", t, op)).or_insert(0) += 1;
+            gcall(ctx, t, n, m, op, sp, x);
+        }
+    };
+    // --- generic -> everything: all patterns (n <= log2n) or a seeded coset
+    let count = 1u64 << n.min(log2n);
+    let stride = (1u64 << n) / count;
+    let off = ctx.seed.wrapping_mul(0x9E37_79B9_7F4A_7C15) % stride;
+    for i in 0..count {
+        let p = i * stride + off;
+        if p == 0 || p == gen::nar(n) {
+            continue;
+        }
+        let s = [st(p)];
+        let v = gen::to_f64_exact(n, es, p);
+        let r = v.round_ties_even();
+        select(ctx, "to_f64", "m", 0, &s, gx(t, n, 0, "to_f64", "m", &s) != v.to_bits());
+        select(ctx, "to_f32", "m", 0, &s, gx(t, n, 0, "to_f32", "m", &s) != (v as f32).to_bits() as u64);
+        select(ctx, "to_i32", "m", 0, &s, gx(t, n, 0, "to_i32", "m", &s) != (r as i32) as u32 as u64);
+        select(ctx, "to_u32", "m", 0, &s, gx(t, n, 0, "to_u32", "m", &s) != (r as u32) as u64);
+        select(ctx, "to_i64", "m", 0, &s, gx(t, n, 0, "to_i64", "m", &s) != (r as i64) as u64);
+        select(ctx, "to_u64", "m", 0, &s, gx(t, n, 0, "to_u64", "m", &s) != r as u64);
+        select(ctx, "to_p8", "f", 0, &s, gx(t, n, 0, "to_p8", "f", &s) != softposit::P8E0::from_f64(v).to_bits() as u64);
+        select(ctx, "to_p16", "f", 0, &s, gx(t, n, 0, "to_p16", "f", &s) != P16E1::from_f64(v).to_bits() as u64);
+        select(ctx, "to_p32", "f", 0, &s, gx(t, n, 0, "to_p32", "f", &s) != P32E2::from_f64(v).to_bits() as u64);
+        select(ctx, "round", "m", 0, &s, gx(t, n, 0, "round", "m", &s) != gx(t, n, 0, "from_f64", "m", &[r.to_bits()]));
+        let m = 2 + ((i as u32).wrapping_mul(7) + n) % 31;
+        let via = gx(other, m, 0, "from_f64", "m", &[v.to_bits()]);
+        select(ctx, "to_x", "f", m, &s, gx(t, n, m, "to_x", "f", &s) != via);
+    }
+    // --- 32-bit sources -> generic: f32 patterns, i32 / u32 values, P32E2 patterns; P16E1: all
+    let cnt = 1u64 << log2n;
+    let stride = (1u64 << 32) / cnt;
+    let off = ctx.seed.wrapping_mul(0xD1B5_4A32_D192_ED03).wrapping_add(n as u64 * 977) % stride;
+    for i in 0..cnt {
+        let w = i * stride + off;
+        let x = [w];
+        let f = f32::from_bits(w as u32) as f64;
+        select(ctx, "from_f32", "m", 0, &x, gx(t, n, 0, "from_f32", "m", &x) != gx(t, n, 0, "from_f64", "m", &[f.to_bits()]));
+        let iv = (w as u32 as i32) as f64;
+        select(ctx, "from_i32", "m", 0, &x, gx(t, n, 0, "from_i32", "m", &x) != gx(t, n, 0, "from_f64", "m", &[iv.to_bits()]));
+        if t == "x2" {
+            let uv = (w as u32) as f64;
+            select(ctx, "from_u32", "m", 0, &x, gx(t, n, 0, "from_u32", "m", &x) != gx(t, n, 0, "from_f64", "m", &[uv.to_bits()]));
+        }
+        if let Some(pv) = val32(w as u32) {
+            select(ctx, "from_p32", "f", 0, &x, gx(t, n, 0, "from_p32", "f", &x) != gx(t, n, 0, "from_f64", "m", &[pv.to_bits()]));
+        }
+        let h = w >> 16;
+        if h != 0 && h != 0x8000 {
+            let pv = gen::to_f64_exact(16, 1, h);
+            select(ctx, "from_p16", "f", 0, &[h], gx(t, n, 0, "from_p16", "f", &[h]) != gx(t, n, 0, "from_f64", "m", &[pv.to_bits()]));
+        }
+    }
+}
